@@ -13,6 +13,9 @@ let tyname t = match inn t with 0 -> "A" | 1 -> "B" | 2 -> "C" | k -> "T" ^ stri
 let tyof c = match c with 'A' -> ni 0 | 'B' -> ni 1 | 'C' -> ni 2 | _ -> failwith "type"
 let q_parse_op s = match sp '.' s with
   | ["mk"; i; t] -> Make (ni (ios i), ni (ios t))
+  (* mr.i.t.m: the payload is RE-ENTRANT (its destructor calls reset() on (m land 1) / assigns nullptr to (m land 2) the pointer
+     that owns it); for the spec it is a Make like any other — every clause of the property holds of it unchanged *)
+  | ["mr"; i; t; m] when ios m >= 0 && ios m <= 3 -> Make (ni (ios i), ni (ios t))
   | ["mc"; i; j] -> MoveCtor (ni (ios i), ni (ios j))
   | ["ma"; i; j] -> MoveAssign (ni (ios i), ni (ios j))
   | ["rs"; i] -> Reset (ni (ios i))
@@ -47,11 +50,25 @@ let q_obs_state st =
   let cs = List.init q_ntypes (fun t -> string_of_int (inn (count_type (ni t) st.heap))) in
   let ds = List.init q_ntypes (fun t -> string_of_int (inn (count_destroyed_by (ni t) st.heap))) in
   String.concat "|" [field_of_list objs; field_of_list pool; field_of_list vecs; "c=" ^ String.concat "/" cs; "d=" ^ String.concat "/" ds]
+let q_reentry_of s = match sp '.' s with
+  | ["mr"; _; _; m] -> (if ios m land 1 <> 0 then [ReReset] else []) @ (if ios m land 2 <> 0 then [ReAssignNull] else [])
+  | _ -> []
 let model_q n ops =
   let st = ref (q_init (ni (ios n))) in
+  let re = ref [] in   (* object id -> what its destructor does to its owner *)
+  let words = ref (list_of_field ops) in
   let parts = List.map (fun (o, adopt) ->
+      let word = List.hd !words in
+      words := List.tl !words;
       let a = q_app !st (o, adopt) in
-      if a then st := q_step !st o;
+      (if a then match o with
+         | Make _ when q_reentry_of word <> [] -> re := (List.length !st.heap, q_reentry_of word) :: !re; st := q_step !st o
+         | Reset i ->
+           (* reset of a pointer whose pointee is re-entrant: the three stages of Own/Quaint.v reset_reentrant *)
+           (match nth_error !st.pool i with
+            | Some (Live (Some (id, _))) when List.mem_assoc (inn id) !re -> st := reset_reentrant !st i (List.assoc (inn id) !re)
+            | _ -> st := q_step !st o)
+         | _ -> st := q_step !st o);
       (if a then (match o with MakeThrows _ -> "throw" | _ -> "ok") else "skip") ^ "|" ^ q_obs_state !st) (q_parse_ops ops) in
   String.concat ";" (parts @ ["fin|" ^ q_obs_state (q_finish !st)])
 
@@ -179,28 +196,71 @@ let oracle_o kind n ops obs =
   end
 
 (* ================================================================= env *)
-let e_parse_op s = match sp '.' s with
+(* an op of an "e" case is a plain operation  s.N.V | u.N | g.N.D | d.N | n.N  (a get is observed at once) or a
+   result-holding group  h<form>.<sub>.<sub>...  whose sub-operations use ':' between their fields: the results of ALL
+   gets of the group are observed only after every sub-operation (gets, setenv, unsetenv) was made.
+   forms r / a / m: the results are bound to `const std::string&` / `auto&&` / alternately; one outcome per get.
+   form c: the gets are the arguments of ONE call expression; if any of them raises the call is not made: one "raise". *)
+type ecmd = One of eop | Held of char * eop list
+let e_parse_fields = function
   | ["s"; n; v] -> ESet (str_of_hex n, str_of_hex v)
   | ["u"; n] -> EUnset (str_of_hex n)
   | ["g"; n; d] -> EGet (str_of_hex n, str_of_hex d)
   | ["d"; n] -> EGetDefaulted (str_of_hex n)
   | ["n"; n] -> EGetNoDefault (str_of_hex n)
   | _ -> failwith "eop"
+let e_is_get = function ESet _ | EUnset _ -> false | _ -> true
+let e_parse_cmd s = match sp '.' s with
+  | h :: subs when String.length h = 2 && h.[0] = 'h' && subs <> [] ->
+    let subs = List.map (fun x -> e_parse_fields (sp ':' x)) subs in
+    if not (List.mem h.[1] ['r'; 'a'; 'm'; 'c']) then failwith "eform";
+    if h.[1] = 'c' && not (List.for_all e_is_get subs) then failwith "ecall";
+    Held (h.[1], subs)
+  | f -> One (e_parse_fields f)
 let e_obs_res = function EOk v -> "v" ^ hex_of_str v | ERaise -> "raise"
 let e_parse_res s = if s = "raise" then ERaise else if s.[0] = 'v' then EOk (str_of_hex (String.sub s 1 (String.length s - 1))) else failwith "eres"
-let model_e ops = field_of_list (List.map e_obs_res (env_run [] (List.map e_parse_op (list_of_field ops))))
+(* model: the history model of Own/Env.v — every get creates result object k, HRead k looks at it later *)
+let model_e ops =
+  let st = ref (h_init []) in
+  let nres = ref 0 in
+  let out = ref [] in
+  let step o = let (st', r) = h_step !st o in st := st'; r in
+  let do_op o = ignore (step (HOp o)); if e_is_get o then (incr nres; Some (!nres - 1)) else None in
+  let read k = match step (HRead (nat_of_int k)) with Some r -> r | None -> failwith "model_e: no such result" in
+  List.iter (fun c -> match c with
+      | One o -> (match do_op o with Some k -> out := e_obs_res (read k) :: !out | None -> ())
+      | Held (form, subs) ->
+        let ks = List.filter_map do_op subs in
+        let rs = List.map read ks in
+        if form = 'c' && List.mem ERaise rs then out := "raise" :: !out
+        else List.iter (fun r -> out := e_obs_res r :: !out) rs)
+    (List.map e_parse_cmd (list_of_field ops));
+  field_of_list (List.rev !out)
+(* oracle: the three clauses, judged against the environment AT THE MOMENT OF EACH GET (tracked here with
+   env_set / env_unset); a held result must still be that text when it is finally observed *)
 let oracle_e ops obs =
-  let ops = List.map e_parse_op (list_of_field ops) in
+  let cmds = List.map e_parse_cmd (list_of_field ops) in
   let outs = ref (List.map e_parse_res (list_of_field obs)) in
   let env = ref [] in
   let ok = ref true in
   let take () = match !outs with x :: r -> outs := r; Some x | [] -> ok := false; None in
-  List.iter (fun o -> match o with
-      | ESet (n, v) -> env := env_set !env n v
-      | EUnset n -> env := env_unset !env n
-      | EGet (n, d) -> (match take () with Some r -> if not (env_spec_ok (env_lookup !env n) (Some d) r) then ok := false | None -> ())
-      | EGetDefaulted n -> (match take () with Some r -> if not (env_spec_ok (env_lookup !env n) (Some []) r) then ok := false | None -> ())
-      | EGetNoDefault n -> (match take () with Some r -> if not (env_spec_ok (env_lookup !env n) None r) then ok := false | None -> ())) ops;
+  let want o = match o with
+    | EGet (n, d) -> Some (env_lookup !env n, Some d)
+    | EGetDefaulted n -> Some (env_lookup !env n, Some [])
+    | EGetNoDefault n -> Some (env_lookup !env n, None)
+    | ESet (n, v) -> env := env_set !env n v; None
+    | EUnset n -> env := env_unset !env n; None in
+  let judge (cur, d) = match take () with Some r -> if not (env_spec_ok cur d r) then ok := false | None -> () in
+  List.iter (fun c -> match c with
+      | One o -> (match want o with Some w -> judge w | None -> ())
+      | Held ('c', subs) ->
+        let ws = List.filter_map want subs in
+        if List.exists (fun (cur, d) -> cur = None && d = None) ws
+        then (match take () with Some ERaise -> () | _ -> ok := false)
+        else List.iter judge ws
+      | Held (_, subs) ->
+        let ws = List.filter_map want subs in   (* the environment of each get's own moment *)
+        List.iter judge ws) cmds;
   !ok && !outs = []
 
 (* ================================================================= dl *)
